@@ -11,7 +11,12 @@ struct fam { const char* alpha; int k; int L; int protein; };
 static const struct fam FQ[] = {{"AC", 3, 4, 0}, {"ACG", 3, 3, 0}, {"AC", 4, 3, 0}, {"AC", 5, 2, 0}, {"LK", 3, 4, 1}, {"LK", 4, 2, 1}};
 static const struct fam FT[] = {{"AC", 3, 5, 0}, {"ACG", 3, 4, 0}, {"AC", 4, 4, 0}, {"ACG", 4, 2, 0}, {"AC", 5, 3, 0}, {"AC", 6, 2, 0}, {"LK", 3, 5, 1}, {"LKW", 3, 3, 1}, {"LK", 4, 3, 1}, {"LK", 5, 2, 1}};
 static const float PRESET[3][3] = {{-1, -1, -1}, {0, 0, 0}, {2, 1, 0.5f}};
-#define NBIG 9          /* sched inputs 11,12,13 (k-means trees) and 6 large-shape count sets */
+#define NBIG0 9         /* sched inputs 11,12,13 (k-means trees) and 6 large-shape count sets */
+#define NFAM2 12        /* two well-separated families: 255/256/257/511/512/513 members + 8 or 120 of the other (a node with exactly that many members) */
+#define NBIG (NBIG0 + SH_NTIE + NFAM2)
+#ifndef C10_THREADS
+#define C10_THREADS 1
+#endif
 
 static const struct fam* fams(int tier, int* n)
 {
@@ -26,6 +31,9 @@ uint64_t vh_total(int tier)
         int n, i;
         const struct fam* F = fams(tier, &n);
         uint64_t t = 0;
+        if(C10_THREADS > 1){
+                return NBIG;    /* libgomp leg: the large sets only */
+        }
         for(i = 0; i < n; i++){
                 t += fsize(&F[i]);
         }
@@ -35,6 +43,8 @@ uint64_t vh_total(int tier)
 static int g_tree_tasks;
 static int g_tree[4096][3];
 static int g_active;
+#include <pthread.h>
+static pthread_mutex_t g_snaplock = PTHREAD_MUTEX_INITIALIZER;
 
 static void hook(int ev, int a, int b, int c, const void* p, const void* q)
 {
@@ -52,7 +62,11 @@ static void hook(int ev, int a, int b, int c, const void* p, const void* q)
                         g_tree[i][2] = t->list[i]->c;
                 }
         }else if(ev == KV_MERGE_END){
+                /* on the libgomp leg node completions arrive from several threads: the snapshot store is serialised (the vectors
+                   copied belong to the node that has just completed; no other task writes them any more) */
+                pthread_mutex_lock(&g_snaplock);
                 take_snapshot(c, (const struct msa*)p);
+                pthread_mutex_unlock(&g_snaplock);
         }
 }
 
@@ -62,7 +76,7 @@ static void decode(uint64_t id, int tier, struct kx_set* in, int* preset, int* b
         const struct fam* F = fams(tier, &n);
         kx_set_init(in);
         *big = -1;
-        for(i = 0; i < n; i++){
+        for(i = 0; i < n && C10_THREADS <= 1; i++){
                 uint64_t sz = fsize(&F[i]);
                 if(id < sz){
                         uint64_t S = kx_count_strings((int)strlen(F[i].alpha), 1, F[i].L);
@@ -80,7 +94,22 @@ static void decode(uint64_t id, int tier, struct kx_set* in, int* preset, int* b
         }
         *big = (int)id;
         *preset = 0;
-        if(id < 3){
+        if(id >= NBIG0 + SH_NTIE){
+                static const int CNT[6] = {255, 256, 257, 511, 512, 513};
+                int k = (int)(id - NBIG0 - SH_NTIE), n1 = CNT[k % 6], n2 = (k / 6) ? 120 : 8, q;
+                uint64_t st = 0xFA12 + (uint64_t)k;
+                char A[40], B[40], tmp[48];
+                sh_random_seq(&st, "LKWAVDEG", 24, A);
+                sh_random_seq(&st, "STNQRHFY", 30, B);
+                for(q = 0; q < n1 + n2; q++){
+                        const char* base = q < n1 ? A : B;
+                        int bl = (int)strlen(base);
+                        sh_derive(&st, q < n1 ? "LKWAVDEG" : "STNQRHFY", base, bl, bl - (q % 3), tmp);
+                        kx_set_addf(in, tmp, q < n1 ? "a%04d" : "b%04d", q);
+                }
+        }else if(id >= NBIG0){
+                sh_tie_build((int)(id - NBIG0), in);
+        }else if(id < 3){
                 sinput_build(sinput_get(11 + (int)id), in);
         }else{
                 /* the count sets of the large-shape family (99,100,101,... sequences) */
@@ -110,6 +139,23 @@ int vh_case(uint64_t id, int tier)
         long regroup = 0;
         const char* msg;
         decode(id, tier, &in, &preset, &big);
+        if(getenv("C10_FASTA")){
+                /* diagnostic: judge one external FASTA file instead of the enumerated case */
+                size_t fl = 0;
+                char* data = vh_read_file(getenv("C10_FASTA"), &fl);
+                struct fp_aln a;
+                int q;
+                kx_set_free(&in);
+                kx_set_init(&in);
+                fp_parse_fasta(data, &a);
+                for(q = 0; q < a.n; q++){
+                        kx_set_add(&in, a.row[q], a.name[q]);
+                }
+                fp_free(&a);
+                free(data);
+                big = 0;
+                preset = 0;
+        }
         m = kx_make_msa(&in);
         free_snapshots();
         g_tree_tasks = 0;
@@ -120,13 +166,27 @@ int vh_case(uint64_t id, int tier)
                 alarm(120);
         }
         vh_count("library_calls");
-        rc = kalign_run(m, 1, KALIGN_TYPE_UNDEFINED, PRESET[preset][0], PRESET[preset][1], PRESET[preset][2]);
+        rc = kalign_run(m, (C10_THREADS > 1 && big >= 0) ? C10_THREADS : 1, KALIGN_TYPE_UNDEFINED, PRESET[preset][0], PRESET[preset][1], PRESET[preset][2]);
         g_active = 0;
         if(rc != OK){
                 vh_fail("sem:run-failed", "kalign_run failed on a valid input");
         }else{
                 if(nsnap != g_tree_tasks || nsnap != m->numseq - 1){
                         vh_fail("sem:hook-missing", "%d node completions for %d merges of %d sequences", nsnap, g_tree_tasks, m->numseq);
+                }
+                if(getenv("C10_TREE")){
+                        FILE* df = fopen(getenv("C10_TREE"), "a");
+                        int q;
+                        fprintf(df, "case %llu:", (unsigned long long)id);
+                        for(q = 0; q < g_tree_tasks; q++){
+                                fprintf(df, " (%d,%d->%d)", g_tree[q][0], g_tree[q][1], g_tree[q][2]);
+                        }
+                        fprintf(df, " | order:");
+                        for(q = 0; q < m->numseq; q++){
+                                fprintf(df, " %s", m->sequences[q]->name);
+                        }
+                        fprintf(df, "\n");
+                        fclose(df);
                 }
                 msg = check_c10(m, &in, &regroup);
                 if(msg){
